@@ -39,10 +39,26 @@ PROPS = {
         "technique": "Lean 4 proofs by functional induction over the merge loops + regenerated facts + differential correspondence",
         "explanation": "Schedule algebra proved for all period lists, times and denominations; pure functions and account methods of x/vesting/types compared line by line with the compiled Lean driver; independent Go step-function monitors check union/min/clawback identities on the real code.",
     },
+    "C17": {
+        "id": "C17",
+        "lean_modules": ["HaqqModel.Props.C17"],
+        "level": "proof",
+        "trusted_base": COMMON_TRUST + [
+            "modelled, not verified: big.Int / LegacyDec arithmetic (floor division, exact Dec multiplication of an integer, TruncateInt), the params store, the consensus-params plumbing, the block gas meter",
+        ],
+        "assumptions": [
+            "parameters satisfy Params.Validate() (denominator != 0, elasticity != 0 — the latter is a regenerated fact), base fee enabled and past the enable height, target T > 0, MaxGas < 2^63",
+            "monotonicity is proved for floor(minGasPrice) <= parent base fee; outside that regime it is false of the code (known finding F-C17-a, pinned by the repository's own tests)",
+        ],
+        "level_text": "Machine-checked proofs (Lean 4) that CalculateBaseFee is the stated EIP-1559 function (three branches), respects the minimum on decrease, strictly increases above target, is monotone in g when the minimum does not exceed the parent fee (with a kernel-checked counterexample otherwise), never panics for validated parameters, and that the EndBlock gas figure is max(floor(gasWanted x multiplier), gasUsed) and monotone; tied to the real keeper by a differential run.",
+        "level_note": "Trusted: Lean kernel; go/ast extractor; correspondence harness; integer/decimal library semantics modelled.",
+        "technique": "Lean 4 proofs (case analysis + omega) + regenerated validation fact + differential correspondence",
+        "explanation": "All branches of CalculateBaseFee / EndBlock modelled and proved; the real keeper is run on boundary sweeps around the target and compared with the compiled Lean driver; independent big.Int monitors check formula, bounds and adjacent-g monotonicity.",
+    },
 }
 
 # properties not (yet) claimed, each with a reason; entries disappear as checks are built
 NOT_APPLICABLE = {pid: "check not built yet in this session (planned: see DESIGN.md §5)" for pid in
-                  ["C01", "C02", "C03", "C04", "C05", "C06", "C07", "C08", "C10", "C11", "C13", "C14", "C15", "C16", "C17", "C18", "C19", "C20"]}
+                  ["C01", "C02", "C03", "C04", "C05", "C06", "C07", "C08", "C10", "C11", "C13", "C14", "C15", "C16", "C18", "C19", "C20"]}
 
 HOOK_COMMITS = []
